@@ -161,3 +161,64 @@ def exDiamond (k : Kind) : Sys :=
 def isOk {α} : Except LErr α → Bool
   | .error _ => false
   | .ok _ => true
+
+/-- storage is the in-memory fact list, document by document, in the same order -/
+def StoreEq (s : St) : Prop := s.store = s.facts.map (fun p => (p.1, J.obj p.2))
+
+/-- a linear state never touches the indexes -/
+def LinIdx (s : St) : Prop := s.kind = .linear ∧ s.ri = PI.empty ∧ s.ti = []
+
+/-! ## C09 noninterference vocabulary -/
+
+/-- every parent list that reading location state `l` can return lies inside `S` -/
+def ParentsIn (S : String → Prop) (now : Int) (l : Loc) : Prop :=
+  ∀ l' ps, locGetParentsRaw now l = (l', .ok ps) → ∀ p ∈ ps, S p
+
+/-- `S` is closed under the declared-parent relation of `sys` -/
+def Closed (S : String → Prop) (sys : Sys) (now : Int) : Prop :=
+  ∀ m, S m → ∀ l, sys.get? m = some l → ParentsIn S now l
+
+/-- the two systems have the same component at every name in `S` -/
+def AgreeOn (S : String → Prop) (sys1 sys2 : Sys) : Prop := ∀ m, S m → sys1.get? m = sys2.get? m
+
+/-- a single-location computation that keeps name and provider flag and whose only effect on the state is
+to erase ids (from facts and storage together) and to update indexes — true of every read-only method:
+their only side effect is the purge of expired facts -/
+def LM.Shr {α} (m : LM α) : Prop :=
+  ∀ l, (m l).1.name = l.name ∧ (m l).1.hasProvider = l.hasProvider ∧ Shrinks l.st (m l).1.st
+
+/-- a computation after which the location's declared parents still lie in any set they lay in before -/
+def LM.ParentMono {α} (now : Int) (m : LM α) : Prop :=
+  ∀ (S : String → Prop) l, ParentsIn S now l → ParentsIn S now (m l).1
+
+/-- tag every value with the name of the location that produced it -/
+def tagged {α} (fn : String → LM α) : String → LM (String × α) :=
+  fun m => LM.bind (fn m) (fun a => LM.pure (m, a))
+
+/-- decide that a finite set of names is parent-closed -/
+def closedB (names : List String) (sys : Sys) (now : Int) : Bool :=
+  names.all (fun m => match sys.get? m with
+    | none => true
+    | some l => match (locGetParentsRaw now l).2 with
+      | .ok ps => ps.all names.contains
+      | .error _ => true)
+
+/-! ## C06: canonical (already prepared) facts -/
+
+/-- the expiry data of an in-memory fact -/
+def expOf (f : Obj) : Bool × Int := match f.get? "expires" with | some (.num n) => (true, n) | _ => (false, 0)
+
+/-- `f` stored under `id` is a fixed point of fact preparation: preparing it again with its own id, at any
+time, regenerates the same id and the same fact, and `ExtractRule` leaves it unchanged -/
+structure CanonFact (id : String) (f : Obj) : Prop where
+  genId : ∀ fresh, genId f id fresh = .ok id
+  setExp : ∀ now, setExpires f now = .ok (f, expOf f)
+  extract : ∃ r, extractRule f false = .ok (r, f)
+
+def AllCanon (s : St) : Prop := ∀ p ∈ s.facts, CanonFact p.1 p.2
+
+/-- re-indexing the (non-scheduled) rule of `f` never fails, whatever the rule index holds -/
+def IndexableFact (id : String) (f : Obj) : Prop :=
+  ∀ r, extractRule f false = .ok (some r, f) → Obj.has r "schedule" = false → ∀ s : St, (s.indexRule id r).2 = none
+
+def AllIndexable (s : St) : Prop := ∀ p ∈ s.facts, IndexableFact p.1 p.2
